@@ -1555,7 +1555,19 @@ def _len_bounds(R, alt, base):
     if m:
         plb, _ = _len_bounds(R, alt, m.group(1))
         lb = max(lb, plb - int(m.group(2)))
+    # x[.. len-c] (also split_at(len-c).0) has len-c elements
+    m = re.fullmatch(r"(.+)\[RangeTo\{sub\(\[T\]::len\((.+)\),([\w:]+)\)\}\]", base)
+    if m and m.group(1) == m.group(2) and _cval(R, m.group(3)) is not None:
+        plb, _ = _len_bounds(R, alt, m.group(1))
+        lb = max(lb, plb - _cval(R, m.group(3)))
     for lit in alt:
+        # c1 <= len - c2 together with c2 <= len (no wrap of the subtraction)  =>  len >= c1 + c2
+        m = re.fullmatch(r"l([te])\(([\w:]+),sub\(%s,([\w:]+)\)\)" % L, lit)
+        if m and _cval(R, m.group(2)) is not None and _cval(R, m.group(3)) is not None:
+            c1, c2 = _cval(R, m.group(2)) + (1 if m.group(1) == "t" else 0), _cval(R, m.group(3))
+            nowrap = any((mm := re.fullmatch(r"le\(([\w:]+),%s\)" % L, l2)) and _cval(R, mm.group(1)) is not None and _cval(R, mm.group(1)) >= c2 for l2 in alt)
+            if nowrap:
+                lb = max(lb, c1 + c2)
         m = re.fullmatch(r"eq\(%s,(.*)\)" % L, lit) or re.fullmatch(r"eq\((.*),%s\)" % L, lit)
         if m:
             v = _cval(R, m.group(1))
